@@ -19,6 +19,12 @@ import Rooc.Proofs.BuilderLemmas
 import Rooc.Proofs.SemDefined
 import Rooc.Proofs.RefLemmas
 import Rooc.Proofs.RatInst
+import Rooc.Proofs.BuilderHistLemmas
+import Rooc.Proofs.ComposeSolver
+import Rooc.Proofs.TextTwin
+import Rooc.Proofs.PipesLemmas
+import Rooc.Proofs.Compose
+import Rooc.Props.C03
 namespace Rooc.Props.C16
 open Rooc Rooc.Exp Rooc.Builder
 
@@ -194,15 +200,31 @@ theorem intoModel_objective {b : BModel α} {m : Model α} (h : intoModel b = so
     exact ⟨trivial, toExp_eq_some.2 ⟨hr.2, rfl⟩⟩
   · cases h
 
-/-- constraints are translated one for one, in order: same name, comparison and assertion flag; the
-left-hand side (and for a comparison the right-hand side) translated by `toExp`. -/
+/-- `to_constraint`, spelled out: name and assertion flag kept, left-hand side translated by `toExp`; a comparison keeps
+its operator and has its right-hand side translated; an assertion is stored as `lhs = 1` (`Constraint::new_logic_assertion`)
+whatever the builder constraint's public `constraint_type` / `rhs` fields hold. -/
+theorem toConstraint_spec {names : List String} {c c' : Constraint α} (h : toConstraint names c = some c') :
+    c'.name = c.name ∧ c'.isAssert = c.isAssert ∧ toExp names c.lhs = some c'.lhs ∧
+    (if c.isAssert then c'.cmp = .eq ∧ c'.rhs = .num Arith.one
+     else c'.cmp = c.cmp ∧ toExp names c.rhs = some c'.rhs) := by
+  rw [toConstraint_closed] at h
+  split at h
+  · next hr =>
+    simp only [Option.some.injEq] at h
+    subst h
+    simp only [cInRange, Bool.and_eq_true, Bool.or_eq_true] at hr
+    by_cases ha : c.isAssert = true
+    · simp only [renameC, ha, if_true, and_self, and_true, true_and]
+      exact toExp_eq_some.2 ⟨hr.1, rfl⟩
+    · simp only [renameC, ha, Bool.false_eq_true, if_false, true_and]
+      exact ⟨toExp_eq_some.2 ⟨hr.1, rfl⟩, toExp_eq_some.2 ⟨hr.2.resolve_left ha, rfl⟩⟩
+  · cases h
+
+/-- constraints are translated one for one, in order, each by `to_constraint`. -/
 theorem intoModel_constraints {b : BModel α} {m : Model α} (h : intoModel b = some m) :
     m.constraints.length = b.constraints.length ∧
     ∀ i (h₁ : i < b.constraints.length) (h₂ : i < m.constraints.length),
-      let c := b.constraints[i]; let c' := m.constraints[i]
-      c'.name = c.name ∧ c'.cmp = c.cmp ∧ c'.isAssert = c.isAssert ∧
-      toExp (b.vars.map (·.1)) c.lhs = some c'.lhs ∧
-      (if c.isAssert then c'.rhs = c.rhs else toExp (b.vars.map (·.1)) c.rhs = some c'.rhs) := by
+      toConstraint (b.vars.map (·.1)) b.constraints[i] = some m.constraints[i] := by
   rw [intoModel_closed] at h
   split at h
   · next hr =>
@@ -212,13 +234,7 @@ theorem intoModel_constraints {b : BModel α} {m : Model α} (h : intoModel b = 
     intro i h₁ h₂
     simp only [bInRange, Bool.and_eq_true, List.all_eq_true] at hr
     have hc := hr.1 _ (List.getElem_mem h₁)
-    simp only [cInRange, Bool.and_eq_true, Bool.or_eq_true] at hc
-    simp only [List.getElem_map, renameC, true_and]
-    refine ⟨toExp_eq_some.2 ⟨hc.1, rfl⟩, ?_⟩
-    by_cases ha : b.constraints[i].isAssert = true
-    · simp [ha]
-    · simp only [ha, Bool.false_eq_true, if_false]
-      exact toExp_eq_some.2 ⟨hc.2.resolve_left ha, rfl⟩
+    simp only [List.getElem_map, toConstraint_closed, hc, if_true]
   · cases h
 
 /-- the result is `Closed` — every variable occurring in it is a declared variable with a usage mark —
@@ -268,6 +284,271 @@ theorem intoModel_feasible_inDomain {K : Type} [Field K] [LinearOrder K] [IsStri
   have := hf.2 { name := p.1, ty := p.2, usage := 1 } (by rw [hd]; exact List.mem_map.2 ⟨p, hp, rfl⟩)
   simpa using this
 
+/-! ### 7. builder CALL HISTORIES (`Rooc/BuilderHist.lean`: the `ModelBuilder` state machine)
+
+`run BState.new ops` replays a history of `add_var / add_vars / with / with_all / maximize / minimize / satisfy` calls
+(every call under `catch_unwind` in the harness: after the duplicate-name panic the builder is used on). -/
+section histories
+variable {α : Type} [Arith α]
+
+/-- every history keeps the builder's invariant: `variable_names` are exactly the keys of the domain map, in
+declaration order, and PAIRWISE DISTINCT — duplicate rejection is what discharges the `names.Nodup` hypothesis of
+`toExp_injective_on_shape` / `evalExpr_eq_eval_vals` for every model a builder can produce. -/
+theorem history_invariant (ops : List (Op α)) :
+    let s := (run (BState.new : BState α) ops).1
+    s.variableNames = s.domain.map (·.1) ∧ s.variableNames.Nodup :=
+  let h := run_inv ops (inv_new (α := α)); ⟨h.keys, h.nodup⟩
+
+/-- duplicate rejection, exactly: in a state reached by a history `add_var` panics iff the name is declared;
+otherwise it mints the next index, which resolves to that name, and changes nothing else. -/
+theorem addVar_spec (ops : List (Op α)) (n : String) (ty : VarType α) :
+    let s := (run (BState.new : BState α) ops).1
+    ((∃ e, addVar s n ty = .error e) ↔ n ∈ s.variableNames) ∧
+    (∀ s' h, addVar s n ty = .ok (s', h) → h = s.variableNames.length ∧ s'.variableNames[h]? = some n ∧
+      s'.variableNames = s.variableNames ++ [n] ∧ s'.domain = s.domain ++ [(n, ty)] ∧
+      s'.constraints = s.constraints ∧ s'.objective = s.objective) := by
+  refine ⟨addVar_error_iff (run_inv ops inv_new) n ty, fun s' h hok => ?_⟩
+  obtain ⟨h1, h2, h3, h4, h5, _⟩ := addVar_ok hok
+  exact ⟨h1, addVar_handle_resolves hok, h2, h3, h4, h5⟩
+
+/-- handles are stable: whatever a handle resolves to at some point of a history, it resolves to after any further
+calls (names are only ever appended). -/
+theorem history_handles_stable (s : BState α) (ops : List (Op α)) {h : Nat} {n : String}
+    (hr : s.variableNames[h]? = some n) : (run s ops).1.variableNames[h]? = some n :=
+  resolves_of_prefix (run_prefix ops s) hr
+
+/-- CLOSED FORM of a history: the declarations are those of the declaration calls alone, the constraints are the
+added ones in call order (`with_all cs` = the `with`s of `cs`), and the LAST objective call wins. -/
+theorem history_closed_form (ops : List (Op α)) (s : BState α) :
+    (run s ops).1.variableNames = (run s (ops.filter isDecl)).1.variableNames ∧
+    (run s ops).1.domain = (run s (ops.filter isDecl)).1.domain ∧
+    (run s ops).1.constraints = s.constraints ++ consOf ops ∧
+    (run s ops).1.objective = (match lastObj ops with | some o => some o | none => s.objective) :=
+  run_closed ops s
+
+/-- ORDER INDEPENDENCE ("objective before/after constraints, with / with_all"): two histories with the same
+declaration calls, the same constraints in the same order and the same last objective build the same model. -/
+theorem history_order_independent (ops₁ ops₂ : List (Op α)) (s : BState α)
+    (hd : ops₁.filter isDecl = ops₂.filter isDecl) (hc : consOf ops₁ = consOf ops₂)
+    (ho : lastObj ops₁ = lastObj ops₂) : (run s ops₁).1.intoModel = (run s ops₂).1.intoModel := by
+  obtain ⟨a1, a2, a3, a4⟩ := run_closed ops₁ s
+  obtain ⟨b1, b2, b3, b4⟩ := run_closed ops₂ s
+  have : (run s ops₁).1 = (run s ops₂).1 := by
+    cases h1 : (run s ops₁).1; cases h2 : (run s ops₂).1
+    simp only [h1, h2] at a1 a2 a3 a4 b1 b2 b3 b4
+    simp only [BState.mk.injEq]
+    exact ⟨by rw [a1, b1, hd], by rw [a2, b2, hd], by rw [a3, b3, hc], by rw [a4, b4, ho]⟩
+  rw [this]
+
+/-- `into_model` of a history is `Builder.intoModel` of the declared variables, constraints and objective it
+accumulated — so every theorem of section 6 applies to it. -/
+theorem history_intoModel (ops : List (Op α)) :
+    let s := (run (BState.new : BState α) ops).1
+    s.intoModel = intoModel { vars := s.domain, constraints := s.constraints, objective := s.objective } :=
+  BState.intoModel_eq (run_inv ops inv_new).keys
+
+/-- the model of a history: closed (C03's hypothesis), every declared variable marked, names pairwise distinct. -/
+theorem history_model (ops : List (Op α)) {m : Model α}
+    (h : (run (BState.new : BState α) ops).1.intoModel = some m) :
+    Ref.Closed m = true ∧ (∀ d ∈ m.domain, d.usage = 1) ∧ (m.domain.map (·.name)).Nodup ∧
+    m.domain.map (·.name) = (run (BState.new : BState α) ops).1.variableNames := by
+  have hi := run_inv ops (inv_new (α := α))
+  rw [history_intoModel] at h
+  obtain ⟨_, h2, h3, _⟩ := intoModel_marks_all h
+  refine ⟨intoModel_closed_model h, h3, ?_, ?_⟩
+  · rw [h2]; simpa [← hi.keys] using hi.nodup
+  · rw [h2]; simpa using hi.keys.symm
+
+end histories
+
+/-! ### 8. `BuilderSolution::eval` at the returned solution is the language semantics -/
+section readback
+variable {K : Type} [Field K] [LinearOrder K] [IsStrictOrderedRing K] [FloorRing K]
+open Rooc.Compose
+
+/-- `eval` resolves a handle to the solved value of its name (0 for a handle or name without a value); whenever the
+language semantics gives the translated expression a value at the assignment the solution denotes
+(`Compose.assignmentOf`, the assignment the C03 theorems speak about), `eval` returns exactly that value.  Finite
+solution values is a decidable condition on the returned `LpSolution`. -/
+theorem solution_eval_eq_semEval (b : BSolution (Ext K))
+    (hfin : ∀ n val, b.solution.valueOf n = some val → ∃ k : K, val.toNum = .fin k)
+    {e e' : Exp (Ext K)} {v : K} (ht : toExp b.variableNames e = some e')
+    (hv : Sem.eval (assignmentOf b.solution) e' = some v) : b.eval e = .fin v := by
+  refine evalExpr_eq_eval b.variableNames (assignmentOf b.solution) b.resolver ?_ ht hv
+  intro i hi
+  simp only [BSolution.resolver, BSolution.numericValue, BSolution.varValue, List.getElem?_eq_getElem hi,
+    assignmentOf]
+  cases hval : b.solution.valueOf b.variableNames[i] with
+  | none => simp
+  | some val =>
+    obtain ⟨k, hk⟩ := hfin _ _ hval
+    simp [hk, StdSem.toK]
+
+/-- `var_value` / `numeric_value` through a handle are the value of the handle's NAME in the solver's solution
+(first duplicate wins, `SolverWrap.Solution.valueOf`), `None` for a handle that does not belong to the model. -/
+theorem solution_varValue (b : BSolution (Ext K)) (h : Nat) :
+    (∀ n, b.variableNames[h]? = some n → b.varValue h = b.solution.valueOf n ∧
+      b.numericValue h = (b.solution.valueOf n).map SolverWrap.Val.toNum) ∧
+    (b.variableNames.length ≤ h → b.varValue h = none ∧ b.numericValue h = none ∧ b.resolver h = .fin 0) := by
+  refine ⟨fun n hn => by simp [BSolution.varValue, BSolution.numericValue, hn], fun hle => ?_⟩
+  simp [BSolution.varValue, BSolution.numericValue, BSolution.resolver, List.getElem?_eq_none hle]
+
+end readback
+
+/-! ### 9. builder door ≍ text door
+
+`TextTwin bm tm` (`Rooc/Proofs/TextTwin.lean`): the two source models have the same direction, objective, constraints,
+declared names and types, and differ at most in the usage counts — the builder marks every declaration
+(`intoModel_marks_all`), the text front end counts occurrences, so a declaration that occurs nowhere has count 0 there and
+is dropped by the compiler.  This is the relation `./check C16` observes between `ModelBuilder::into_model` and
+`RoocParser::parse_and_transform` of the printed text (`same-tree`: equal with the usage column stripped).
+
+Hypotheses on the TEXT model, all established by the text front end: `Closed tm` (every occurring variable is a marked
+declaration: the transformer's usage counting), distinct declared names (`IndexMap` keys), and every never-used
+declaration has a non-empty domain (`to_variable_type` rejects `IntegerRange(a, b)` with `a > b`; these are the `nodup` /
+`inhabited` fields of `LinP.DeclOK`).  `builder_text_counterexample` shows the last one cannot be dropped. -/
+section twin
+variable {K : Type} [Field K] [LinearOrder K] [IsStrictOrderedRing K] [FloorRing K]
+open Rooc.Sem Rooc.Ref Rooc.Props.C03
+
+/-- SAME FEASIBLE ASSIGNMENTS of the used variables, same objective: an assignment satisfies the builder's model iff it
+satisfies the text model and puts the never-used declarations inside their domains; every assignment satisfying the text
+model can be changed on the never-used declarations only so that it satisfies the builder's, with the same objective. -/
+theorem builder_text_feasible {bm tm : Model (Ext K)} (h : TextTwin bm tm) (hb : ∀ d ∈ bm.domain, d.usage > 0)
+    (hc : Closed tm = true) (hnd : (tm.domain.map (·.name)).Nodup)
+    (hne : ∀ d ∈ tm.domain, d.usage = 0 → ∃ x : K, inDomain x d.ty = true) :
+    (∀ ρ : String → K, srcFeasible bm ρ = true ↔
+      (srcFeasible tm ρ = true ∧ ∀ d ∈ tm.domain, d.usage = 0 → inDomain (ρ d.name) d.ty = true)) ∧
+    (∀ ρ : String → K, srcFeasible tm ρ = true → ∃ ρ' : String → K, srcFeasible bm ρ' = true ∧
+      eval ρ' bm.objective = eval ρ tm.objective ∧ ∀ d ∈ tm.domain, d.usage > 0 → ρ' d.name = ρ d.name) :=
+  ⟨srcFeasible_twin h hb, fun _ hf => twin_extend h hb hc hnd hne hf⟩
+
+/-- SAME VERDICT AND OPTIMAL VALUE: on enumerable declarations the reference interpreter answers the two models alike —
+`infeasible` for both or neither, `optimal` with the SAME value, a `satisfy` witness for both or neither.  (Through
+`Props.C03.c03_default_solver_logic_partial` this is the verdict and value each door's pipeline returns.) -/
+theorem builder_text_same_verdict {bm tm : Model (Ext K)} (h : TextTwin bm tm) (hb : ∀ d ∈ bm.domain, d.usage > 0)
+    (hc : Closed tm = true) (hnd : (tm.domain.map (·.name)).Nodup)
+    (hne : ∀ d ∈ tm.domain, d.usage = 0 → ∃ x : K, inDomain x d.ty = true)
+    {asgB asgT : List (List (String × K))} (haB : assignments bm.domain = some asgB)
+    (haT : assignments tm.domain = some asgT) :
+    (refSolve bm = .infeasible ↔ refSolve tm = .infeasible) ∧
+    (∀ v, (∃ w, refSolve bm = .optimal v w) ↔ (∃ w, refSolve tm = .optimal v w)) ∧
+    ((∃ w, refSolve bm = .feasibleAny w) ↔ (∃ w, refSolve tm = .feasibleAny w)) := by
+  have hcB : Closed bm = true := twin_closed h hb hc
+  have toT : ∀ ρ : String → K, srcFeasible bm ρ = true → srcFeasible tm ρ = true :=
+    fun ρ hf => ((srcFeasible_twin h hb ρ).1 hf).1
+  have toB := fun (ρ : String → K) (hf : srcFeasible tm ρ = true) => twin_extend h hb hc hnd hne hf
+  refine ⟨?_, ?_, ?_⟩
+  · rw [refSolve_infeasible_iff haB hcB, refSolve_infeasible_iff haT hc]
+    constructor
+    · intro hall ρ
+      cases hf : srcFeasible tm ρ with
+      | false => rfl
+      | true => obtain ⟨ρ', hf', _⟩ := toB ρ hf; rw [hall ρ'] at hf'; cases hf'
+    · intro hall ρ
+      cases hf : srcFeasible bm ρ with
+      | false => rfl
+      | true => have := toT ρ hf; rw [hall ρ] at this; cases this
+  · intro v
+    constructor
+    · rintro ⟨w, hr⟩
+      obtain ⟨hne', hfw, hvw, hbest⟩ := refSolve_optimal_spec hr
+      have hdef : ∀ ρ' : String → K, srcFeasible tm ρ' = true → (eval ρ' tm.objective).isSome = true := by
+        intro ρ' hf'
+        obtain ⟨ρ'', hf'', hobj, _⟩ := toB ρ' hf'
+        rw [← hobj]; exact refSolve_optimal_objective_defined hr hcB hf''
+      obtain ⟨v', w', hr'⟩ := refSolve_optimal_complete haT hc (by rw [h.optType]; exact hne') (toT _ hfw) hdef
+      obtain ⟨_, hfw', hvw', hbest'⟩ := refSolve_optimal_spec hr'
+      have h1 : better bm.optType v' v = false := by
+        obtain ⟨ρ'', hf'', hobj, _⟩ := toB _ hfw'
+        exact hbest hcB ρ'' hf'' v' (by rw [hobj, hvw'])
+      have h2 : better bm.optType v v' = false := by
+        have := hbest' hc (lookup w) (toT _ hfw) v (by rw [h.objective]; exact hvw)
+        rwa [h.optType] at this
+      have : v' = v := Rooc.Compose.eq_of_not_better hne' h1 h2
+      exact ⟨w', this ▸ hr'⟩
+    · rintro ⟨w, hr⟩
+      obtain ⟨hne', hfw, hvw, hbest⟩ := refSolve_optimal_spec hr
+      obtain ⟨ρB, hfB, hobjB, _⟩ := toB _ hfw
+      have hdef : ∀ ρ' : String → K, srcFeasible bm ρ' = true → (eval ρ' bm.objective).isSome = true := by
+        intro ρ' hf'
+        rw [← h.objective]; exact refSolve_optimal_objective_defined hr hc (toT ρ' hf')
+      obtain ⟨v', w', hr'⟩ := refSolve_optimal_complete haB hcB (by rw [← h.optType]; exact hne') hfB hdef
+      obtain ⟨_, hfw', hvw', hbest'⟩ := refSolve_optimal_spec hr'
+      have h1 : better tm.optType v' v = false :=
+        hbest hc (lookup w') (toT _ hfw') v' (by rw [h.objective]; exact hvw')
+      have h2 : better tm.optType v v' = false := by
+        have := hbest' hcB ρB hfB v (by rw [hobjB, hvw])
+        rwa [← h.optType] at this
+      have : v' = v := Rooc.Compose.eq_of_not_better hne' h1 h2
+      exact ⟨w', this ▸ hr'⟩
+  · constructor
+    · rintro ⟨w, hr⟩
+      obtain ⟨hs, hf⟩ := refSolve_feasibleAny_spec hr
+      exact refSolve_feasibleAny_complete haT hc (by rw [h.optType]; exact hs) (toT _ hf)
+    · rintro ⟨w, hr⟩
+      obtain ⟨hs, hf⟩ := refSolve_feasibleAny_spec hr
+      obtain ⟨ρB, hfB, _⟩ := toB _ hf
+      exact refSolve_feasibleAny_complete haB hcB (by rw [← h.optType]; exact hs) hfB
+
+end twin
+
+/-! ### 10. the staged pipe runner is function composition (`Rooc/Pipes.lean`, diffed on arbitrary pipe sequences) -/
+section pipes
+open Rooc.Pipes
+variable {D E : Type}
+
+/-- `runPipe_compose`: a successful run returns the start datum followed by every intermediate result — one per pipe — and
+its last element is the `?`-composition of the stages applied to the start datum. -/
+theorem runPipe_compose (pipes : List (D → Except E D)) (d : D) {rs : List D} (h : runPipe pipes d = .ok rs) :
+    rs.length = pipes.length + 1 ∧ rs.head? = some d ∧ ∃ hne : rs ≠ [], chain pipes d = .ok (rs.getLast hne) := by
+  rw [runPipe_eq_scan] at h
+  cases hs : scan pipes d with
+  | error x => obtain ⟨e, rs'⟩ := x; simp [hs] at h
+  | ok rs' =>
+    simp only [hs, Except.ok.injEq] at h
+    subst h
+    obtain ⟨h1, h2⟩ := scan_ok pipes d rs' hs
+    exact ⟨by simp [h1], rfl, by simp, h2⟩
+
+/-- a failing run: the error is the error of the composition, the results handed back are the start datum and the results
+of the pipes BEFORE the failing one (strictly fewer than the pipes), the last of them being the composition of those
+pipes — the datum the failing pipe was applied to. -/
+theorem runPipe_error (pipes : List (D → Except E D)) (d : D) {e : E} {rs : List D}
+    (h : runPipe pipes d = .error (e, rs)) :
+    chain pipes d = .error e ∧ rs.head? = some d ∧ rs.length ≤ pipes.length ∧
+    ∃ hne : rs ≠ [], chain (pipes.take (rs.length - 1)) d = .ok (rs.getLast hne) := by
+  rw [runPipe_eq_scan] at h
+  cases hs : scan pipes d with
+  | ok rs' => simp [hs] at h
+  | error x =>
+    obtain ⟨e', rs'⟩ := x
+    simp only [hs, Except.error.injEq, Prod.mk.injEq] at h
+    obtain ⟨rfl, rfl⟩ := h
+    obtain ⟨h1, h2, h3⟩ := scan_error pipes d e' rs' hs
+    exact ⟨h2, rfl, by simp; omega, by simp, by simpa using h3⟩
+
+/-- a built-in pipe answers `InvalidData { expected, got }` exactly on a tag mismatch (expected = the variant it reads,
+got = the variant it was handed); on the right variant it is its stage function, wrapped. -/
+theorem builtin_spec {P : Type} (k : PipeKind) (f : P → Option P) (t : DataTy) (p : P) :
+    (t ≠ k.input → builtin k f (t, p) = .error (.invalidData k.input t)) ∧
+    (t = k.input → builtin k f (t, p) = match k.output, f p with
+      | some o, some q => .ok (o, q)
+      | _, _ => .error (.stage k.errVariant)) := by
+  constructor
+  · intro h; simp [builtin, h]
+  · intro h; subst h; simp only [builtin, bne_self_eq_false, Bool.false_eq_true, if_false]
+    cases k.output <;> cases f p <;> rfl
+
+/-- the preset the doors use — `Compiler, PreModel, Model, LinearModel, AutoSolver` — is well typed: from a `String` it
+yields the six data `String, Parser, PreModel, Model, LinearModel, MILPSolution` when no stage function fails. -/
+example : runTags [.compiler, .preModel, .model, .linearModel, .autoSolver] .string none =
+    .ok [.string, .parser, .preModel, .model, .linearModel, .milpSolution] := by decide
+/-- a pipe in the wrong place: `ModelPipe` right after `CompilerPipe` is handed a `Parser`. -/
+example : runTags [.compiler, .model] .string none = .error (.invalidData .preModel .parser, [.string, .parser]) := by decide
+
+end pipes
+
 /-! ### Non-vacuity: a concrete builder model at `K = ℚ`
 
 `x ∈ {0..5}` (index 0), `y` Boolean (index 1), `z` Boolean declared but never used (index 2);
@@ -305,7 +586,7 @@ example : toExp ["x"] lin = none := by
   simp [toExp, lin, v0, v1, i0, i1]
 
 private theorem exB_intoModel : intoModel exB = some exM := by
-  simp [intoModel, exB, exM, toExp, lin, lin', v0, v1, i0, i1]
+  simp [intoModel, toConstraint, exB, exM, toExp, lin, lin', v0, v1, i0, i1]
 
 /-- `evalExpr_eq_eval_vals` applies: at `x = 3, y = 1` the builder's evaluator gives `5`, the value
 of the translated expression under the language semantics. -/
@@ -333,7 +614,98 @@ example (ρ : String → ℚ) (hf : Sem.srcFeasible exM ρ = true) : Sem.inDomai
 example : ∃ m, intoModel { exB with objective := none } = some m ∧ m.optType = .satisfy ∧
     m.objective = .num (.fin 0) := by
   refine ⟨{ exM with optType := .satisfy, objective := .num (.fin 0) }, ?_, rfl, rfl⟩
-  simp [intoModel, exB, exM, toExp, lin, lin', v0, v1, i0, i1]
+  simp [intoModel, toConstraint, exB, exM, toExp, lin, lin', v0, v1, i0, i1]
+
+/-! #### a call history, replayed -/
+
+private noncomputable def exOps : List (Op (Ext ℚ)) :=
+  [.addVar "x" (.int 0 5), .addVars "y" 2 .bool, .addVar "y_1" .bool, .maximize (.var "0"),
+   .with_ (bcNew (.bin .add (.var "0") (.bin .mul (.num (.fin 2)) (.var "1"))) .le (.num (.fin 6)) "c"),
+   .satisfy, .with_ (bcAssert (.or [.var "1", .var "2"]) "a"),
+   .maximize (.bin .add (.var "0") (.bin .mul (.num (.fin 2)) (.var "1")))]
+
+/-- outcomes: handles 0, then the family `y_0, y_1` (handles 1, 2), then the duplicate-name panic of `add_var "y_1"`. -/
+example : (run BState.new exOps).2 =
+    [.handles [0], .handles [1, 2], .duplicate "y_1", .unit, .unit, .unit, .unit, .unit] := by decide +kernel
+
+example : (run BState.new exOps).1.variableNames = ["x", "y_0", "y_1"] := by decide +kernel
+
+/-- a family that collides half way leaves its earlier members declared. -/
+example : (run (BState.new : BState (Ext ℚ)) [.addVar "v_1" .bool, .addVars "v" 3 .bool]).2 =
+      [.handles [0], .duplicate "v_1"] ∧
+    (run (BState.new : BState (Ext ℚ)) [.addVar "v_1" .bool, .addVars "v" 3 .bool]).1.variableNames = ["v_1", "v_0"] := by
+  decide +kernel
+
+/-- the same constraints and last objective in another call order (`with_all`, objective first): same model
+(`history_order_independent` applies). -/
+example : (run BState.new exOps).1.intoModel =
+    (run BState.new ([.addVar "x" (.int 0 5), .addVars "y" 2 .bool, .addVar "y_1" .bool,
+      .maximize (.bin .add (.var "0") (.bin .mul (.num (.fin 2)) (.var "1"))),
+      .withAll [bcNew (.bin .add (.var "0") (.bin .mul (.num (.fin 2)) (.var "1"))) .le (.num (.fin 6)) "c",
+                bcAssert (.or [.var "1", .var "2"]) "a"]] : List (Op (Ext ℚ)))).1.intoModel :=
+  history_order_independent _ _ _ (by unfold exOps; rfl) (by simp [exOps, consOf]) (by simp [exOps, lastObj, objOfOp])
+
+/-- `solution_eval_eq_semEval` applies: a solution `x = 4, y_0 = 1` (no value for `y_1`: it reads as 0). -/
+example : BSolution.eval
+      { solution := SolverWrap.lpSolutionNew [("x", .int 4), ("y_0", .bool true)] (.fin 6) [], variableNames := ["x", "y_0", "y_1"] }
+      (.bin .add (.var "0") (.bin .mul (.num (.fin 2)) (.var "1")) : Exp (Ext ℚ)) = .fin 6 := by
+  refine solution_eval_eq_semEval _ ?_ (e' := .bin .add (.var "x") (.bin .mul (.num (.fin 2)) (.var "y_0"))) ?_ ?_
+  · intro n val hv
+    have hcases : val = .int 4 ∨ val = .bool true := by
+      simp only [SolverWrap.Solution.valueOf, SolverWrap.lpSolutionNew, SolverWrap.buildAssignmentMap, SolverWrap.imGet,
+        List.foldl_cons, List.foldl_nil, List.any_nil, List.nil_append, List.any_cons, Bool.false_eq_true, if_false,
+        Bool.or_false] at hv
+      have hne : (("x" : String) == "y_0") = false := by decide
+      simp only [hne, Bool.false_eq_true, if_false, List.cons_append, List.nil_append, List.find?_cons] at hv
+      by_cases h1 : (("x" : String) == n) = true
+      · simp only [h1] at hv; left; simpa using hv.symm
+      · have h1' : (("x" : String) == n) = false := by simpa using h1
+        simp only [h1'] at hv
+        by_cases h2 : (("y_0" : String) == n) = true
+        · simp only [h2] at hv; right; simpa using hv.symm
+        · have h2' : (("y_0" : String) == n) = false := by simpa using h2
+          simp [h2'] at hv
+    rcases hcases with rfl | rfl
+    · exact ⟨4, by simp [SolverWrap.Val.toNum]⟩
+    · exact ⟨1, by simp [SolverWrap.Val.toNum]⟩
+  · simp [toExp, i0, i1]
+  · simp [Sem.eval, Sem.binVal, Rooc.Compose.assignmentOf, SolverWrap.Solution.valueOf, SolverWrap.lpSolutionNew,
+      SolverWrap.buildAssignmentMap, SolverWrap.imGet, SolverWrap.Val.toNum, StdSem.toK]
+    norm_num
+
+/-! #### builder ≍ text -/
+
+private def twinB : Model (Ext ℚ) :=
+  { optType := .max, objective := .var "x", constraints := [],
+    domain := [{ name := "x", ty := .bool, usage := 1 }, { name := "u", ty := .int 2 3, usage := 1 }] }
+private def twinT : Model (Ext ℚ) := { twinB with domain := [{ name := "x", ty := .bool, usage := 1 }, { name := "u", ty := .int 2 3, usage := 0 }] }
+
+/-- `builder_text_same_verdict` applies (the never-used `u` has the non-empty domain `{2,3}`): both doors' models get
+`optimal 1`. -/
+example : (∃ w, Ref.refSolve twinB = .optimal 1 w) ↔ (∃ w, Ref.refSolve twinT = .optimal 1 w) :=
+  (builder_text_same_verdict (bm := twinB) (tm := twinT) ⟨rfl, rfl, rfl, rfl⟩ (by decide) (by decide) (by decide)
+    (by
+      intro d hd h0
+      simp only [twinT, List.mem_cons, List.mem_nil_iff, or_false] at hd
+      rcases hd with rfl | rfl
+      · cases h0
+      · exact ⟨2, by rw [fieldExact_rat]; decide +kernel⟩)
+    (asgB := [[("x", 0), ("u", 2)], [("x", 1), ("u", 2)], [("x", 0), ("u", 3)], [("x", 1), ("u", 3)]])
+    (asgT := [[("x", 0)], [("x", 1)]])
+    (by rw [fieldExact_rat]; decide +kernel) (by rw [fieldExact_rat]; decide +kernel)).2.1 1
+
+/-- the hypothesis "never-used declarations are inhabited" cannot be dropped: with `u as IntegerRange(3, 2)` the builder's
+model is infeasible (the builder keeps `u` with bounds `3 ≤ u ≤ 2`) while the text model, which drops `u`, has optimum 1.
+(The text front end never produces this twin: `to_variable_type` rejects `IntegerRange(3, 2)`; through the builder's public
+`VariableType::IntegerRange(3, 2)` it can be declared.) -/
+theorem builder_text_counterexample :
+    ∃ bm tm : Model (Ext ℚ), TextTwin bm tm ∧ (∀ d ∈ bm.domain, d.usage > 0) ∧ Ref.Closed tm = true ∧
+      (tm.domain.map (·.name)).Nodup ∧ Ref.refSolve bm = .infeasible ∧ ∃ w, Ref.refSolve tm = .optimal 1 w := by
+  refine ⟨{ twinB with domain := [{ name := "x", ty := .bool, usage := 1 }, { name := "u", ty := .int 3 2, usage := 1 }] },
+    { twinB with domain := [{ name := "x", ty := .bool, usage := 1 }, { name := "u", ty := .int 3 2, usage := 0 }] },
+    ⟨rfl, rfl, rfl, rfl⟩, by decide, by decide, by decide, ?_, [("x", 1)], ?_⟩
+  · rw [fieldExact_rat]; decide +kernel
+  · rw [fieldExact_rat]; decide +kernel
 
 end examples
 
